@@ -213,11 +213,13 @@ def scanInt : List Char → Option (List Char × List Char)
 
 def scanFrac (inp : List Char) : Option (List Char × List Char) :=
   match inp with
-  | '.' :: cs =>
-    match takeDigits cs with
-    | ([], _) => none
-    | (d, r) => some ('.' :: d, r)
-  | _ => some ([], inp)
+  | c :: cs =>
+    if c = '.' then
+      match takeDigits cs with
+      | ([], _) => none
+      | (d, r) => some ('.' :: d, r)
+    else some ([], inp)
+  | [] => some ([], [])
 
 def scanExp (inp : List Char) : Option (List Char × List Char) :=
   match inp with
@@ -235,8 +237,8 @@ def scanExp (inp : List Char) : Option (List Char × List Char) :=
 /-- `Scanner.scanNumber`: the literal and the rest, `none` = "invalid number" -/
 def scanNumber (inp : List Char) : Option (List Char × List Char) :=
   let (neg, inp') : List Char × List Char := match inp with
-    | '-' :: r => (['-'], r)
-    | _ => ([], inp)
+    | c :: r => if c = '-' then (['-'], r) else ([], inp)
+    | [] => ([], [])
   match scanInt inp' with
   | none => none
   | some (i, r1) =>
